@@ -10,6 +10,7 @@ class LTLExplainer(LtlAstVisitor):
 
     def explain(self, spec):
         self.spec = spec
+        self.explanations = dict()
         for spec in self.spec.specs:
             top_signal = self.spec.results[spec]
             if top_signal[0] < 0:
@@ -33,7 +34,9 @@ class LTLExplainer(LtlAstVisitor):
 
     def visitVariable(self, element, args):
         intervals = args[0]
-        self.explanations[element.name] = intervals
+        # a variable may occur several times: its explanation is the union over all occurrences
+        previous = self.explanations.get(element.name, [])
+        self.explanations[element.name] = interval_union(previous + intervals)
 
     def visitAddition(self, element, args):
         intervals = args[0]
